@@ -348,6 +348,9 @@ class CallMixin:
             return exc(st, err)
         cx = CX(self, con, args, st.fork(), site=st.fn)
         pre = con.pre(cx) if con.pre else []
+        if con.axioms:
+            for a in con.axioms(cx):
+                st.assume(a)
         for label, p in _labelled(pre):
             self.oblige(st, '%s/call:%s/requires:%s' % (st.ghost.get('$top', '?'), con.qual, label), p, 'call-pre')
             st.assume(p)        # later obligations on this path may rely on it (it is proved separately)
